@@ -257,6 +257,43 @@ def h_step_sack_abandon(ctx, q, ngaps, parked=False):
         ctx.observe("left", len(left))
 
 
+def h_step_forward_gap(ctx, have):
+    """Receiver, ordered PR stream: a 3-fragment message with some fragments missing is abandoned
+    while the two complete messages sent after it have already arrived.  The FORWARD-TSN itself
+    must release them - no further DATA chunk may be needed."""
+    origin = ctx.int("origin", 0, U32)
+    s0 = ctx.int("ssn_origin", 0, 0xFFFF)
+    with Env(crc=_crc()) as env:
+        b = env.transport("controlled", established=True, local_tsn=500, remote_tsn=origin)
+        pb = env.channel(b, id=3, maxRetransmits=0)
+        b._get_inbound_stream(3).sequence_number = s0
+        got = []
+        pb.on("message", lambda m: got.append(m))
+
+        def mk(k, flags, ssn, payload):
+            c = DataChunk(flags=flags)
+            c.tsn, c.stream_id, c.stream_seq, c.protocol, c.user_data = (origin + k) & U32, 3, ssn & 0xFFFF, 53, payload
+            return c
+
+        frags = [mk(0, L_B, s0, b"a"), mk(1, 0, s0, b"b"), mk(2, L_E, s0, b"c")]
+        later = [mk(3, L_B | L_E, s0 + 1, b"B"), mk(4, L_B | L_E, s0 + 2, b"C")]
+        for k in have:  # which fragments of the abandoned message did arrive
+            sx.run(b._receive_data_chunk(frags[k]))
+        for c in later:
+            sx.run(b._receive_data_chunk(c))
+        env.drain()
+        ctx.check(got == [], "nothing-delivered-behind-an-incomplete-ordered-message")
+        fwd = ForwardTsnChunk()
+        fwd.cumulative_tsn = (origin + 2) & U32
+        fwd.streams = [(3, s0)]
+        sx.run(b._receive_forward_tsn_chunk(fwd))
+        env.drain()
+        ctx.reach("forward-tsn-over-gap-processed")
+        ctx.check(got == [b"B", b"C"], "messages-behind-the-abandoned-one-are-released-by-the-forward-tsn", repr(got))
+        ctx.check(len(b._get_inbound_stream(3).reassembly) == 0, "nothing-left-in-reassembly")
+        ctx.observe("got", [bytes(m) for m in got])
+
+
 def h_step_forward_acked(ctx, q, parked=False):
     """Sender: a FORWARD-TSN over j abandoned chunks is outstanding (with its stream entry) in front
     of q ordinary outstanding chunks; one SACK arrives.  Once the peer's cumulative TSN covers the
@@ -444,6 +481,7 @@ HARNESSES = {
     "flush-params": Harness("flush-params", lambda ctx, **kw: __import__("harness.c13_channel", fromlist=["h_flush_params"]).h_flush_params(ctx, **kw), lambda tier: [{"n": n} for n in ((2,) if tier == "quick" else (2, 3))], style="BMC over configurations", bounds="messages of partially reliable, unordered and reliable channels flushed in one call (solver-chosen kinds and order): each is handed to _send with its own channel's lifetime / retransmission limit / ordering", encoded=ENC + ["aiortc.rtcsctptransport:RTCSctpTransport._data_channel_flush"], stubs=STUBS + ["RTCSctpTransport._send -> recorder"], twin="flushed", opts={"samples": 1}),
     "step-sack-abandon": Harness("step-sack-abandon", h_step_sack_abandon, lambda tier: [{"q": q, "ngaps": g} for q in ((2, 3) if tier == "quick" else (2, 3, 4)) for g in (1, 2) if not (tier == "quick" and q == 3 and g == 2)] + [{"q": 2, "ngaps": g, "parked": True} for g in ((1,) if tier == "quick" else (1, 2))], style="STEP", bounds="one maxRetransmits=0 message of 2..3 (4) fragments in flight with symbolic sizes, miss counters and gap-ack flags; one SACK with symbolic cumulative point and <=2 gap blocks; TSN origin symbolic", encoded=ENC, stubs=STUBS, twin="sack-over-pr-message-processed", opts={"samples": 1}),
     "step-forward-acked": Harness("step-forward-acked", h_step_forward_acked, lambda tier: [{"q": q} for q in ((0, 1) if tier == "quick" else (0, 1, 2))] + [{"q": 0, "parked": True}], style="STEP", bounds="FORWARD-TSN over 1..3 abandoned chunks outstanding (in one job with a reliable channel's message parked in the channel queue) with one (stream, sequence) entry, 0..1 (quick) / 0..2 further outstanding chunks in arbitrary state, one SACK with symbolic cumulative point; TSN origin symbolic", encoded=ENC, stubs=STUBS, twin="sack-over-forward-tsn-processed", opts={"samples": 1}),
+    "step-forward-gap": Harness("step-forward-gap", h_step_forward_gap, lambda tier: [{"have": h} for h in ([0, 2], [0], [2], [], [0, 1], [1, 2])], style="STEP", bounds="ordered PR stream at symbolic TSN / stream-sequence origins: a 3-fragment message of which a solver-independent subset (6 cases) arrived is abandoned; the two later complete messages arrived before the FORWARD-TSN", encoded=ENC, stubs=STUBS, twin="forward-tsn-over-gap-processed", opts={"samples": 1}),
     "step-forward-held": Harness("step-forward-held", h_step_forward_held, lambda tier: [{"held": h} for h in ((0, 1) if tier == "quick" else (0, 1, 2))], style="STEP", bounds="ordered PR stream at a symbolic 16-bit sequence origin and 32-bit TSN origin: one lost message, 0..1 (quick) / 0..2 received messages held behind it, FORWARD-TSN over all of them, then the next two messages in swapped order", encoded=ENC, stubs=STUBS, twin="forward-tsn-over-held-processed", opts={"samples": 1}),
     "step-abandon": Harness("step-abandon", h_step_abandon, lambda tier: [{"nfrag": n, "nsent": s, "pos": 0} for n in (2, 3) for s in range(1, n + 1)], style="STEP", bounds="PR message of 2..3 fragments of which 1..n are in flight when T3 abandons it; TSN origin symbolic", encoded=ENC, stubs=STUBS, twin="abandoned"),
 }
